@@ -1,6 +1,8 @@
 package main
 
 import (
+	"fmt"
+	"os"
 	"go/types"
 	"strings"
 
@@ -468,6 +470,12 @@ func (a *Analyzer) expandCtx(at *Atom, ctx *sumCtx) []*Atom {
 		}
 		if (idx >= 0 && idx != s.resIdx) || (idx < 0 && s.nres != 1) {
 			return nil
+		}
+		if os.Getenv("LH_DEBUG_EXPAND") != "" && strings.Contains(call.Name, os.Getenv("LH_DEBUG_EXPAND")) {
+			fmt.Fprintf(os.Stderr, "expand %s neg=%v specialised=%v succ=%d fail=%d\n", call.Name, at.Neg, s.specialised, len(s.succ), len(s.fail))
+			for _, k := range s.succ.SortedKeys() {
+				fmt.Fprintf(os.Stderr, "   succ %s\n", k)
+			}
 		}
 		if at.Neg {
 			return s.inst(s.fail, call.Args)
